@@ -588,7 +588,8 @@ def run_property(prop, tier, queries, meta):
 
     wall = time.time() - t0
     passed = [r for r in results if r["verdict"] == "pass"]
-    nontrivial = len({r["name"] for r in results if r.get("witness_ok") and r.get("free_input_bits", 0) > 0})
+    zero_ok = bool(meta.get("count_zero_free_bits"))
+    nontrivial = len({r["name"] for r in results if r.get("witness_ok") and (r.get("free_input_bits", 0) > 0 or (zero_ok and r.get("vcs", 0) > 0))})
     ub = {}
     for r in results:
         for f in r.get("ub_info", []):
@@ -617,6 +618,7 @@ def run_property(prop, tier, queries, meta):
         "solver_time_s": round(sum(r.get("solver_seconds", 0) for r in results), 1),
         "solver": "cbmc 6.11 --external-sat-solver kissat (unless a query says otherwise)",
         "witnesses_reached": sum(1 for r in results if r.get("witness_ok")),
+        "slowest_queries": [{"name": r["name"][:160], "seconds": r.get("seconds")} for r in sorted(results, key=lambda r: -(r.get("seconds") or 0))[:5]],
         "ub_info": [{"what": k, "queries": v} for k, v in sorted(ub.items())][:40],
         "known_findings": sorted(seen),
         "replays": [p for _q, _f, p in violations],
